@@ -242,7 +242,7 @@ def main(tier):
                 res[o] = out
                 ncases += 1
                 c.count(f"render:{kind}:{o}:".encode() + s, b"<" in s and o[1] == 1 and o[0] == 0)
-                case = {"op": "render html", "node": kind, "options": otok(*o), "literal": hx(s), "observed": a}
+                case = {"line": lines[ix * len(OPTS) + k], "node": kind, "options": otok(*o), "literal": hx(s), "observed": a}
                 if out is None:
                     c.violation(f"rendering an Html{kind.capitalize()} node does not return normally", case)
                     continue
@@ -261,7 +261,7 @@ def main(tier):
             for e, u in ((1, 1), (0, 0), (1, 0)):
                 if res[(e, u, 0)] != res[(e, u, 1)]:
                     c.violation("the tagfilter option changes the output although raw HTML is escaped or omitted",
-                                {"op": "render html", "node": kind, "literal": hx(s), "options": otok(e, u, 0), "without": hx(res[(e, u, 0)]), "with": hx(res[(e, u, 1)])})
+                                {"line": lines[ix * len(OPTS) + OPTS.index((e, u, 1))], "node": kind, "literal": hx(s), "options": otok(e, u, 0), "without": hx(res[(e, u, 0)]), "with": hx(res[(e, u, 1)])})
             without, with_ = res[(0, 1, 0)], res[(0, 1, 1)]
             # spec: output with tagfilter = output without, the literal replaced by its filtered form
             if not (without.startswith(pre + s) and without.endswith(post)):
@@ -270,7 +270,7 @@ def main(tier):
             tail = without[len(pre) + len(s):]
             want = pre + wide[ix] + tail
             if with_ != want:
-                case = {"op": "render html", "node": kind, "literal": hx(s), "options": "unsafe=1 vs tagfilter=1,unsafe=1",
+                case = {"line": lines[ix * len(OPTS) + 1], "node": kind, "literal": hx(s), "options": "unsafe=1 vs tagfilter=1,unsafe=1",
                         "without": hx(without), "with": hx(with_), "gfm_expected": hx(want)}
                 if kind == "block":
                     narrow_want = pre + narrow_b[ix] + tail
@@ -327,7 +327,7 @@ def main(tier):
         c.count(b"md:" + lw.encode(), b"<" in d)
         oa, ob = okhex(a), okhex(b)
         if oa is None or ob is None:
-            c.violation("md html does not return normally on a document with raw HTML", {"op": lw, "without": a[:400], "with": b[:400]})
+            c.violation("md html does not return normally on a document with raw HTML", {"line": lw, "without": a[:400], "with": b[:400]})
             continue
         pairs.append((d, lw, oa, ob))
     rel = vlib.run_lines(drv, [f"lt_expansion {hx(oa)} {hx(ob)}" for _, _, oa, ob in pairs])
@@ -337,7 +337,7 @@ def main(tier):
             nchanged += 1
         if r != "ok 1":
             c.violation("end to end: the output with tagfilter is not the output without it with some LT written as &lt;",
-                        {"op": lw, "without": hx(oa), "with": hx(ob), "lt_expansion": r})
+                        {"line": lw, "without": hx(oa), "with": hx(ob), "lt_expansion": r})
     # every raw-HTML literal of the parsed tree appears in the tagfilter output in its filtered form
     blk, inl = [], []
     for (d, lw, a, b), t in zip(zip(docs, lines_w, out_wo, out_w), trees):
@@ -355,7 +355,7 @@ def main(tier):
     fi = vlib.run_lines(drv, [f"lt_escape_first {hx(l)}" for _, l, _ in inl])
     for (lw, l, ob), w, n in zip(blk, fb, fbn):
         if okhex(w) not in ob:
-            case = {"op": lw, "html_block_literal": hx(l), "gfm_filtered": w, "output": hx(ob)}
+            case = {"line": lw, "html_block_literal": hx(l), "gfm_filtered": w, "output": hx(ob)}
             if has_vtff(l) and okhex(n) in ob:
                 c.known_hit(KNOWN_CLASS, case)
             else:
